@@ -1,7 +1,7 @@
 (* C02 — Signer/verifier input is exactly the RFC 9052 Sig_structure.
    Statements only (copied from coq/theories by bin/mkprops); each proof is `exact <lemma>`. *)
 From Coq Require Import Ascii String ZArith List Bool Permutation.
-From GoCose Require Import Bytes Cbor CborProofs Res GoVal Obs Ecdsa Fx Headers Enc Dec Msg HashEnv Key SigVer Run TbsProofs.
+From GoCose Require Import Bytes Cbor CborProofs Res GoVal Obs Ecdsa Fx Headers Enc Dec Msg HashEnv Key SigVer Run TbsProofs FlowProofs AskedOnce.
 From GoCose.Gen Require Import Generated.
 Import ListNotations.
 Open Scope Z_scope.
@@ -78,3 +78,13 @@ Theorem C02_translated_contexts :
   abbrev_sign_protected_Countersign0 = [64] /\ abbrev_sign_protected_VerifyCountersign0 = [64].
 Proof. exact translated_contexts. Qed.
 Print Assumptions C02_translated_contexts.
+
+(* a COSE_Signature's verifier is asked at most once, about that signer's own Sig_structure and signature bytes, and the verdict is its answer: no second attempt over other bytes *)
+Theorem C02_signature_verify_asks_once :
+  forall s vf bp pl ext,
+  snd (signature_verify s vf bp pl ext) = [] \/
+  exists t, tbs_signature (sg_h s) bp pl ext = Acc t /\
+            snd (signature_verify s vf bp pl ext) = [(t, sg_sig s)] /\
+            fst (signature_verify s vf bp pl ext) = vf_run vf t (sg_sig s).
+Proof. exact signature_verify_asks_once. Qed.
+Print Assumptions C02_signature_verify_asks_once.
